@@ -10,7 +10,8 @@
 //! Events (field `e`):
 //!   reset{run}                                   start of a run (fresh cluster)
 //!   spawn.call{p,a,name,cap,sup} spawn.ret{p,res}   res: ok | nametaken | startfail | unavailable | workerstopped
-//!   hook{a,h,ok}                                  logged inside the lifecycle hook
+//!   start.enter{a}                                the actor task entered pre_start (its spawn was admitted)
+//!   hook{a,h,ok}                                  logged inside the lifecycle hook (pre_start: when start-up is decided)
 //!   send.call{p,a,n,k} send.ret{p,res}            res: ok | full | closed     (casts)
 //!   gsend.call{p,n,k}  send.ret{p,res}            cast through the process group
 //!   call.ret{p,n,res,v}                           res: reply | noreply | full | closed | hang ; v: reply value ok
@@ -131,6 +132,10 @@ struct Shared {
     gate_open: Vec<AtomicBool>,
     gate_entered: Vec<AtomicBool>,
     drop_open: Vec<AtomicBool>,
+    /// gated pre_start: entered / may proceed; spawn_ret: the spawn of this actor returned to its caller
+    start_entered: Vec<AtomicBool>,
+    start_open: Vec<AtomicBool>,
+    spawn_ret: Vec<AtomicBool>,
     accepted_casts: AtomicU64,
     handled_casts: AtomicU64,
 }
@@ -158,6 +163,9 @@ impl Shared {
             gate_open: (0..MAX_ACTORS).map(|_| AtomicBool::new(false)).collect(),
             gate_entered: (0..MAX_ACTORS).map(|_| AtomicBool::new(false)).collect(),
             drop_open: (0..MAX_ACTORS).map(|_| AtomicBool::new(false)).collect(),
+            start_entered: (0..MAX_ACTORS).map(|_| AtomicBool::new(false)).collect(),
+            start_open: (0..MAX_ACTORS).map(|_| AtomicBool::new(false)).collect(),
+            spawn_ret: (0..MAX_ACTORS).map(|_| AtomicBool::new(false)).collect(),
             accepted_casts: AtomicU64::new(0),
             handled_casts: AtomicU64::new(0),
         }
@@ -230,6 +238,16 @@ impl Actor for W {
     type State = ();
 
     async fn pre_start(&self, _me: &Mailbox<Self>, (): ()) -> Result<(), String> {
+        // the task runs: the spawn was admitted (name reserved) before this point
+        let a = self.id as usize;
+        self.sh.log.put(json!({"e": "start.enter", "a": self.id}));
+        self.sh.start_entered[a].store(true, Ordering::Release);
+        if self.spec.pre_gate {
+            let t0 = Instant::now();
+            while !self.sh.start_open[a].load(Ordering::Acquire) && t0.elapsed() < GATE_WATCHDOG {
+                nap(200).await;
+            }
+        }
         // logged when start-up is decided (after the delay): "start-up succeeded" is this point
         nap(self.spec.pre_delay).await;
         if !self.spec.pre_ok {
@@ -348,6 +366,7 @@ impl Handler<SupervisionEvent<W>> for Sup {
                     pre_delay: 0,
                     stop_delay: 0,
                     drop_gate: false,
+                    pre_gate: false,
                 };
                 lock(&self.sh.specs)[b] = Some(spec.clone());
                 spawn_async(&self.sh, Cluster::current(), SUP, b, spec, Some(me.clone())).await;
@@ -406,6 +425,7 @@ async fn spawn_then(
         Err(SpawnError::WorkerStopped) => "workerstopped",
     };
     sh.log.put(json!({"e": "spawn.ret", "p": p, "res": res}));
+    sh.spawn_ret[a].store(true, Ordering::Release);
     res
 }
 
@@ -587,6 +607,29 @@ fn run_thread(sh: Arc<Shared>, cluster: Cluster, t: usize, ops: Vec<Op>, specs: 
                 }
             }
             Op::OpenGate { slot } => sh.gate_open[slot].store(true, Ordering::Release),
+            Op::OpenStart { slot } => sh.start_open[slot].store(true, Ordering::Release),
+            Op::WaitStartEntered { slot } => {
+                let t0 = Instant::now();
+                while !sh.start_entered[slot].load(Ordering::Acquire) && t0.elapsed() < GATE_WATCHDOG {
+                    thread::sleep(Duration::from_micros(100));
+                }
+            }
+            Op::WaitSettled { slot } => {
+                // the spawn of `slot` was either refused / finished, or its task sits in the gated pre_start
+                let t0 = Instant::now();
+                while !sh.start_entered[slot].load(Ordering::Acquire)
+                    && !sh.spawn_ret[slot].load(Ordering::Acquire)
+                    && t0.elapsed() < GATE_WATCHDOG
+                {
+                    thread::sleep(Duration::from_micros(100));
+                }
+            }
+            Op::WaitSpawnRet { slot } => {
+                let t0 = Instant::now();
+                while !sh.spawn_ret[slot].load(Ordering::Acquire) && t0.elapsed() < GATE_WATCHDOG {
+                    thread::sleep(Duration::from_micros(100));
+                }
+            }
             Op::WaitHandled => {
                 let t0 = Instant::now();
                 while sh.handled_casts.load(Ordering::Acquire) < sh.accepted_casts.load(Ordering::Acquire) && t0.elapsed() < GATE_WATCHDOG {
@@ -635,15 +678,20 @@ fn all_done(sh: &Shared, nt: usize) -> bool {
     (0..nt).all(|t| sh.done[t].load(Ordering::Acquire))
 }
 
-fn run_program(prog: &Program, run: u64) -> RunOut {
-    let sh = Arc::new(Shared::new(prog));
+fn run_program(prog: &Program, run: u64, sh: Arc<Shared>) -> RunOut {
     sh.log.put(json!({"e": "reset", "run": run}));
     let nt = prog.threads.len().min(MAX_THREADS);
     let mut out = RunOut { sh: sh.clone(), threads: Vec::new(), nthreads: nt, parked_at: None, hang: None };
     let dispatcher = Dispatcher::builder()
         .worker_threads(NonZeroUsize::new(prog.workers.clamp(1, 3)).unwrap())
-        .build()
-        .expect("dispatcher");
+        .build();
+    let dispatcher = match dispatcher {
+        Ok(d) => d,
+        Err(e) => {
+            out.hang = Some(format!("dispatcher could not be built: {e}"));
+            return out;
+        }
+    };
     let cluster = Cluster::from_dispatcher(dispatcher);
     let deadline = Instant::now() + RUN_WATCHDOG;
 
@@ -720,6 +768,7 @@ fn run_program(prog: &Program, run: u64) -> RunOut {
     for a in 0..MAX_ACTORS {
         sh.gate_open[a].store(true, Ordering::Release);
         sh.drop_open[a].store(true, Ordering::Release);
+        sh.start_open[a].store(true, Ordering::Release);
     }
     let mut stopped = vec![false; MAX_ACTORS];
     let mut exited = vec![false; MAX_ACTORS];
@@ -806,93 +855,30 @@ fn run_program(prog: &Program, run: u64) -> RunOut {
     out
 }
 
-fn main() {
-    let args: Vec<String> = std::env::args().collect();
-    if args.len() < 5 {
-        eprintln!("usage: record_actor <trace.ndjson> <programs.jsonl> <seed> <runs> [hang_watchdog_ms] [replay.json]");
-        std::process::exit(2);
+struct Sink {
+    tf: std::io::BufWriter<std::fs::File>,
+    pf: std::io::BufWriter<std::fs::File>,
+    events: u64,
+}
+
+impl Sink {
+    fn line(&mut self, v: Value) {
+        // the program / progress file is what the check reads when this process dies: always flushed
+        let _ = writeln!(self.pf, "{v}");
+        let _ = self.pf.flush();
     }
-    let seed: u64 = args[3].parse().expect("seed");
-    let runs: u64 = args[4].parse().expect("runs");
-    let hang_ms: u64 = args.get(5).and_then(|s| s.parse().ok()).unwrap_or(20_000);
-    let replay: Option<Program> = args.get(6).map(|p| serde_json::from_str(&std::fs::read_to_string(p).expect("replay file")).expect("replay json"));
-    silence_panics();
-    let mut rep = Report::new();
-    let mut outs: Vec<(Program, RunOut)> = Vec::new();
-    let mut aborted = false;
-    for run in 0..runs {
-        // programs with calls first, so that the hang watchdog of a parked call overlaps with later runs
-        let class = match (run * 20) / runs.max(1) {
-            0..=6 => 0,
-            7..=8 => 3,
-            9..=13 => 1,
-            _ => 2,
-        };
-        // the last 24 runs are the directed programs: 18 group layouts, 6 failed-start respawns
-        let tail = if runs >= 48 { runs - run } else { u64::MAX };
-        let prog = match &replay {
-            Some(p) => p.clone(),
-            None if tail <= 6 => directed("respawn", seed.wrapping_add(tail)),
-            None if tail <= 24 => directed("layout", tail - 7),
-            None => generate(seed.wrapping_mul(1_000_003).wrapping_add(run), class),
-        };
-        let out = match catch_unwind(AssertUnwindSafe(|| run_program(&prog, run))) {
-            Ok(o) => o,
-            Err(e) => {
-                rep.problem(
-                    "panic",
-                    json!({"site": "recorder", "class": prog.class}),
-                    format!("panic on the main thread of run {run}: {}", panic_msg(e)),
-                    &serde_json::to_value(&prog).unwrap(),
-                    run as usize,
-                );
-                aborted = true;
-                break;
-            }
-        };
-        rep.cases += 1;
-        if let Some(h) = &out.hang {
-            rep.problem(
-                "hang",
-                json!({"site": "run", "class": prog.class, "what": h.split(' ').take(3).collect::<Vec<_>>().join(" ")}),
-                format!("run {run}: {h}"),
-                &serde_json::to_value(&prog).unwrap(),
-                run as usize,
-            );
-            outs.push((prog, out));
-            // threads of this run may be wedged for good: stop recording here, keep what was recorded
-            aborted = true;
-            break;
-        }
-        outs.push((prog, out));
-    }
-    // parked calls: wait until each is at least hang_ms old, then give up on it
-    let hang = Duration::from_millis(hang_ms);
-    for (_prog, out) in outs.iter_mut() {
-        if let Some(at) = out.parked_at {
-            while !all_done(&out.sh, out.nthreads) && at.elapsed() < hang {
-                thread::sleep(Duration::from_millis(5));
-            }
-            for t in 0..out.nthreads {
-                out.sh.giveup[t].store(true, Ordering::Release);
-            }
-        }
-    }
-    // join client threads (bounded)
-    let mut parked_runs = 0u64;
-    for (prog, out) in outs.iter_mut() {
-        if out.parked_at.is_some() {
-            parked_runs += 1;
-        }
-        if out.hang.is_some() {
-            continue; // never join threads of a wedged run
-        }
+}
+
+/// Joins the client threads of a finished run (bounded) and writes its trace and its progress line.
+fn finalize(run: u64, prog: &Program, out: &mut RunOut, rep: &mut Report, sink: &mut Sink) {
+    let progv = serde_json::to_value(prog).unwrap_or(Value::Null);
+    if out.hang.is_none() {
         let t0 = Instant::now();
         while !all_done(&out.sh, out.nthreads) && t0.elapsed() < RUN_WATCHDOG {
             for h in &out.threads {
                 h.thread().unpark();
             }
-            thread::sleep(Duration::from_millis(2));
+            thread::sleep(Duration::from_millis(1));
         }
         if all_done(&out.sh, out.nthreads) {
             for h in out.threads.drain(..) {
@@ -902,40 +888,150 @@ fn main() {
             rep.problem(
                 "hang",
                 json!({"site": "client-thread", "class": prog.class}),
-                "a client thread did not finish its script".into(),
-                &serde_json::to_value(&*prog).unwrap(),
-                0,
+                format!("run {run}: a client thread did not finish its script"),
+                &progv,
+                run as usize,
             );
         }
     }
-    // write the trace and the programs
-    let mut tf = std::io::BufWriter::new(std::fs::File::create(&args[1]).expect("trace file"));
-    let mut pf = std::io::BufWriter::new(std::fs::File::create(&args[2]).expect("program file"));
-    let mut events = 0u64;
-    for (run, (prog, out)) in outs.iter().enumerate() {
+    let n = {
         let ev = lock(&out.sh.log.ev);
         for e in ev.iter() {
-            writeln!(tf, "{e}").unwrap();
+            let _ = writeln!(sink.tf, "{e}");
         }
-        events += ev.len() as u64;
-        let unexpected = lock(&out.sh.unexpected).clone();
-        writeln!(pf, "{}", json!({"run": run, "prog": prog, "unexpected": unexpected, "hang": out.hang, "parked": out.parked_at.is_some()})).unwrap();
-        for u in unexpected {
-            let ty = if u.starts_with("PANIC") { "panic" } else if u.starts_with("HANG") { "hang" } else { "contract" };
+        ev.len() as u64
+    };
+    let _ = sink.tf.flush();
+    sink.events += n;
+    let unexpected = lock(&out.sh.unexpected).clone();
+    sink.line(json!({"run": run, "state": "done", "unexpected": unexpected, "hang": out.hang, "parked": out.parked_at.is_some(), "events": n}));
+    for u in unexpected {
+        let ty = if u.starts_with("PANIC") { "panic" } else if u.starts_with("HANG") { "hang" } else { "contract" };
+        rep.problem(
+            ty,
+            json!({"site": "recorder-observation", "class": prog.class, "what": u.split(' ').take(4).collect::<Vec<_>>().join(" ")}),
+            format!("run {run}: {u}"),
+            &progv,
+            run as usize,
+        );
+    }
+}
+
+fn main() {
+    let args: Vec<String> = std::env::args().collect();
+    if args.len() < 5 {
+        eprintln!("usage: record_actor <trace.ndjson> <programs.jsonl> <seed> <runs> [hang_watchdog_ms] [replay.json|-] [first_run]");
+        std::process::exit(2);
+    }
+    let seed: u64 = args[3].parse().unwrap_or(1);
+    let runs: u64 = args[4].parse().unwrap_or(1);
+    let hang_ms: u64 = args.get(5).and_then(|s| s.parse().ok()).unwrap_or(20_000);
+    let replay: Option<Program> = match args.get(6).map(String::as_str) {
+        None | Some("-") => None,
+        Some(p) => match std::fs::read_to_string(p).ok().and_then(|t| serde_json::from_str(&t).ok()) {
+            Some(p) => Some(p),
+            None => {
+                eprintln!("cannot read replay program {p}");
+                std::process::exit(2);
+            }
+        },
+    };
+    let first: u64 = args.get(7).and_then(|s| s.parse().ok()).unwrap_or(0);
+    silence_panics();
+    let mut rep = Report::new();
+    let (tf, pf) = match (std::fs::File::create(&args[1]), std::fs::File::create(&args[2])) {
+        (Ok(a), Ok(b)) => (a, b),
+        _ => {
+            eprintln!("cannot create output files");
+            std::process::exit(2);
+        }
+    };
+    let mut sink = Sink { tf: std::io::BufWriter::new(tf), pf: std::io::BufWriter::new(pf), events: 0 };
+    let mut parked: Vec<(u64, Program, RunOut)> = Vec::new();
+    let mut aborted_at: Option<u64> = None;
+    for run in first..runs {
+        // programs with calls first, so that the hang watchdog of a parked call overlaps with later runs
+        let class = match (run * 20) / runs.max(1) {
+            0..=6 => 0,
+            7..=8 => 3,
+            9..=13 => 1,
+            _ => 2,
+        };
+        // the last 28 runs are the directed programs: 18 group layouts, 6 failed-start respawns, 4 spawn races
+        let tail = if runs >= 48 { runs - run } else { u64::MAX };
+        let prog = match &replay {
+            Some(p) => p.clone(),
+            None if tail <= 4 => directed("race", tail - 1),
+            None if tail <= 10 => directed("respawn", seed.wrapping_add(tail)),
+            None if tail <= 28 => directed("layout", tail - 11),
+            None => generate(seed.wrapping_mul(1_000_003).wrapping_add(run), class),
+        };
+        let progv = serde_json::to_value(&prog).unwrap_or(Value::Null);
+        sink.line(json!({"run": run, "state": "start", "prog": progv}));
+        let sh = Arc::new(Shared::new(&prog));
+        let mut out = match catch_unwind(AssertUnwindSafe(|| run_program(&prog, run, sh.clone()))) {
+            Ok(o) => o,
+            Err(e) => {
+                // a panic that reached the main thread of the run (e.g. a worker panic resumed by Cluster::join)
+                let msg = panic_msg(e);
+                rep.problem(
+                    "panic",
+                    json!({"site": "run", "class": prog.class, "what": msg.split(' ').take(4).collect::<Vec<_>>().join(" ")}),
+                    format!("run {run}: panic reached the driving thread: {msg}"),
+                    &progv,
+                    run as usize,
+                );
+                for a in 0..MAX_ACTORS {
+                    sh.gate_open[a].store(true, Ordering::Release);
+                    sh.drop_open[a].store(true, Ordering::Release);
+                    sh.start_open[a].store(true, Ordering::Release);
+                }
+                for t in 0..MAX_THREADS {
+                    sh.giveup[t].store(true, Ordering::Release);
+                }
+                sink.line(json!({"run": run, "state": "done", "panic": msg, "unexpected": [], "hang": Value::Null, "parked": false, "events": 0}));
+                rep.cases += 1;
+                continue;
+            }
+        };
+        rep.cases += 1;
+        if let Some(h) = out.hang.clone() {
             rep.problem(
-                ty,
-                json!({"site": "recorder-observation", "class": prog.class, "what": u.split(' ').take(4).collect::<Vec<_>>().join(" ")}),
-                format!("run {run}: {u}"),
-                &serde_json::to_value(prog).unwrap(),
-                run,
+                "hang",
+                json!({"site": "run", "class": prog.class, "what": h.split(' ').take(3).collect::<Vec<_>>().join(" ")}),
+                format!("run {run}: {h}"),
+                &progv,
+                run as usize,
             );
+            finalize(run, &prog, &mut out, &mut rep, &mut sink);
+            // threads and workers of this run may be wedged for good: the check continues in a fresh process
+            aborted_at = Some(run);
+            break;
+        }
+        if out.parked_at.is_some() {
+            parked.push((run, prog, out));
+        } else {
+            finalize(run, &prog, &mut out, &mut rep, &mut sink);
         }
     }
-    tf.flush().unwrap();
-    pf.flush().unwrap();
-    rep.steps = events;
+    // parked calls: wait until each is at least hang_ms old, then give up on it
+    let hang = Duration::from_millis(hang_ms);
+    let parked_runs = parked.len() as u64;
+    for (run, prog, mut out) in parked {
+        if let Some(at) = out.parked_at {
+            while !all_done(&out.sh, out.nthreads) && at.elapsed() < hang {
+                thread::sleep(Duration::from_millis(5));
+            }
+            for t in 0..out.nthreads {
+                out.sh.giveup[t].store(true, Ordering::Release);
+            }
+        }
+        finalize(run, &prog, &mut out, &mut rep, &mut sink);
+    }
+    rep.steps = sink.events;
     rep.set("parked_runs", json!(parked_runs));
-    rep.set("aborted", json!(aborted));
+    rep.set("aborted", json!(aborted_at.is_some()));
+    rep.set("aborted_at", json!(aborted_at));
     rep.finish();
     // client threads of a wedged run may still be blocked: leave without joining them
     std::process::exit(0);
